@@ -642,6 +642,9 @@ pub fn spaces_mode<'a>(prop: &'a str, mode: Mode, deadline: Instant, threads: us
                 al(3, 1),
                 al(24, 8),
                 Op::AllocRem { extra: 1, align: 1 },
+                // fills the current chunk exactly: a checkpoint taken now sits on the chunk's last address, which on the
+                // packed substrate is also the first address of the next chunk
+                Op::AllocRem { extra: 0, align: 1 },
                 Op::Grow { sel: Sel::Newest, delta: 8, align: 0, zeroed: false },
                 Op::Dealloc { sel: Sel::Newest },
                 Op::TryWith { mutable: true, ok: false, inner: None, try_: false },
@@ -649,7 +652,9 @@ pub fn spaces_mode<'a>(prop: &'a str, mode: Mode, deadline: Instant, threads: us
                 Op::Reset,
                 Op::ResetToStart,
             ];
-            let ps = params(&[Handle::Direct], &[Ctor::TryNew, Ctor::Unallocated], &[z, og]);
+            // pk: the packed substrate (grants back to back like a region allocator: consecutive chunks are adjacent)
+            let pk = SlabCfg { phase: vcore::slab::PACKED_PHASE, overgrant: 0, fail_mask: 0 };
+            let ps = params(&[Handle::Direct], &[Ctor::TryNew, Ctor::Unallocated], &[z, og, pk]);
             if mode == Mode::Quick {
                 // full alphabet to depth 4, the core subset (one scope kind per mechanism) to depth 5
                 let core: Vec<Op> = a.iter().copied().filter(|o| is_core(o) || matches!(o, Op::Enter(Region::Checkpoint))).collect();
